@@ -229,6 +229,34 @@ class Interp:
                     outs = [o + v for o in outs for v in argvals[i]
                             if isinstance(v, tuple)]
             return outs
+        if isinstance(e, ast.Call) and isinstance(e.func, ast.Name) \
+                and e.func.id in getattr(self, "functions", {}) \
+                and not e.keywords and getattr(self, "_depth", 0) < 3:
+            # a module-level helper: interpret its body with the arguments
+            f = self.functions[e.func.id]
+            params = [a.arg for a in f.args.args]
+            if len(params) == len(e.args):
+                outs = []
+                argsets = [[]]
+                for a in e.args:
+                    argsets = [x + [v] for x in argsets
+                               for v in self.ev(a, env)]
+                self._depth = getattr(self, "_depth", 0) + 1
+                try:
+                    for vals in argsets:
+                        for kind, v, _e in self.run(
+                                f.body, dict(zip(params, vals))):
+                            if kind == "return":
+                                outs.append(v)
+                finally:
+                    self._depth -= 1
+                if outs:
+                    return outs
+        if isinstance(e, ast.Tuple):
+            combos = [()]
+            for x in e.elts:
+                combos = [c + (v,) for c in combos for v in self.ev(x, env)]
+            return [("TUPLE",) + c for c in combos]
         raise AnalysisError(f"{self.name}: unsupported expression "
                             f"`{ast.unparse(e)}`")
 
@@ -278,7 +306,13 @@ class Interp:
                     for v in self.ev(s.value, st):
                         st2 = dict(st)
                         for t in s.targets:
-                            if isinstance(t, ast.Name):
+                            if isinstance(t, ast.Tuple) and isinstance(
+                                    v, tuple) and v[:1] == ("TUPLE",) \
+                                    and len(v) == len(t.elts) + 1 and all(
+                                    isinstance(x, ast.Name) for x in t.elts):
+                                for x, vv in zip(t.elts, v[1:]):
+                                    st2[x.id] = vv
+                            elif isinstance(t, ast.Name):
                                 st2[t.id] = v
                             elif isinstance(t, ast.Subscript) \
                                     and isinstance(t.slice, ast.Constant):
